@@ -135,6 +135,9 @@ def write_graph(molecule, smiles_format=False, default_element='*'):
         if current in atom_to_ring_idx:
             # We're going to need to write a ring number
             ring_idxs = atom_to_ring_idx[current]
+            # the CGsmiles reader takes every digit after '%': once a '%nn' marker was
+            # written on this node all further markers are written as '%0n'
+            after_pct = False
             for ring_idx in ring_idxs:
                 ring_bond = ring_idx_to_bond[ring_idx]
                 if ring_idx not in ring_idx_to_marker:
@@ -149,7 +152,11 @@ def write_graph(molecule, smiles_format=False, default_element='*'):
                     order = molecule.edges[ring_bond].get('order', 1)
                     smiles += order_to_symbol[order]
 
-                smiles += str(marker) if marker < 10 else '%{}'.format(marker)
+                if marker < 10 and not after_pct:
+                    smiles += str(marker)
+                else:
+                    smiles += '%{:02d}'.format(marker)
+                    after_pct = True
 
         if current in dfs_successors:
             # Proceed to the next node in this branch
